@@ -158,7 +158,7 @@ def run(tier, seed):
     c = authsim.Cred("EdDSA")
     check_decode(c.cose_bytes, c.pk, "ed25519")
     B.close()
-    fw.env_invariance(chk, "reg")          # the same seeded cases under -O / -OO, warnings-as-errors, other TZ / locale, a private CA bundle
+    fw.env_invariance(chk, "auth", "reg")          # the same seeded cases under -O / -OO, warnings-as-errors, other TZ / locale, a private CA bundle
     return fw.finish(chk, ob, br, TRUSTED,
                      ["the scheme table of the model is the regenerated behavioural export; the expected verdict of each matrix cell comes from the property text (harness SPEC table), not from the model"],
                      RULE, "coqc -Q . PW Properties/C09.v; thorough: coqchk -o")
